@@ -3,6 +3,7 @@ import collections
 import copy
 import itertools
 
+import os
 import vlib
 
 PROPS = "Props/C13.v"
@@ -669,6 +670,16 @@ def construct_problems(h, w, form):
             if got != ("ok", ("1", tuple(range(h * w)))):
                 probs.append((akind, nm, got, ("1", tuple(range(h * w)))))
     return probs
+
+
+def translate(ctx):
+    """tie T for the arithmetic core: array.py::_range_size is translated from source into Gen/PyIntArray.v on every
+    run; Array/RangeSizeGen.v proves it equal to the model's range_size (Props/C13.v::range_size_from_source)"""
+    import pyint_translate as T
+    src = open(os.path.join(vlib.REPO, "cspuz", "array.py")).read()
+    txt = T.HEADER % ("cspuz/array.py::_range_size", "step (after `if step == 0: raise`), -step")
+    txt += T.translate_function(src, "_range_size", "range_size_py", nonzero=["step", "-step"])
+    vlib.write_if_changed(os.path.join(vlib.THEORIES, "Gen", "PyIntArray.v"), txt)
 
 
 def correspond(ctx):
